@@ -400,7 +400,7 @@ static void run_case(uint64_t idx)
     VRT_COUNT("mt.cases");
 }
 
-static uint64_t ncases(void) { return vrt_thorough ? 400 : 96; }
+static uint64_t ncases(void) { return vrt_thorough ? 600 : 192; }
 static void winit(void)
 {
     vrt_set_mt(1);
